@@ -135,6 +135,11 @@ impl Router {
             return true;
         }
 
+        #[cfg(feature = "verif-hooks")]
+        verif::emit(verif::Event::NotificationTaken(
+            notification.method.clone(),
+        ));
+
         match notification.method.as_str() {
             "textDocument/didChange" => {
                 let params = DidChangeTextDocumentParams::deserialize(notification.params).unwrap();
